@@ -26,7 +26,16 @@ func VerifK14aListStoresAnyToken() {
 	}
 	tok := vt.String("tok", vt.ParamInt("tok", 2))
 	ps := vt.IntRange("ps", 1, N+1)
-	page, next, err := ds.ListStores(ctx, storage.ListStoresOptions{Pagination: storage.PaginationOptions{PageSize: ps, From: tok}})
+	var ids []string
+	if vt.ParamInt("ids", 0) == 1 {
+		// an ID filter naming every store (in descending order, plus an unknown id): the documented order is
+		// still by store ID and the tokens still denote positions in that order
+		ids = append(ids, "zz-unknown")
+		for i := n - 1; i >= 0; i-- {
+			ids = append(ids, verifID(i))
+		}
+	}
+	page, next, err := ds.ListStores(ctx, storage.ListStoresOptions{IDs: ids, Pagination: storage.PaginationOptions{PageSize: ps, From: tok}})
 	if err != nil {
 		vt.Reach("rejected")
 		return
